@@ -77,29 +77,47 @@ structure ResetMsg where
   txAddrs : List Addr
   deriving Repr, Inhabited
 
+/-! `MsgReset` computes the record it writes back from the one it read, field by field (no state change until the write) -/
+def resetStatus (m : ResetMsg) (node : Node) : Node :=
+  if m.status ≠ 0 ∧ node.status ≠ m.status then { node with status := m.status } else node
+
+def resetPeer (m : ResetMsg) (node : Node) : TxM Node :=
+  if m.peer ≠ 0 ∧ node.peer ≠ m.peer then
+    if m.peerOk then pure { node with peer := m.peer } else throw "invalid peer"
+  else pure node
+
+def resetValidator (s : State) (m : ResetMsg) (node : Node) : TxM Node :=
+  if m.validator ≠ 0 ∧ node.validator ≠ m.validator then
+    if !m.valKnown then throw "invalid validator"
+    else if (s.staking.validator m.validator).isNone then throw "validator not found"
+    else pure { node with validator := m.validator }
+  else pure node
+
+def resetTx (s : State) (m : ResetMsg) (node : Node) : Node :=
+  let node := if m.txAddrs ≠ [] then { node with txAddresses := m.txAddrs } else node
+  { node with lastAlive := s.h, role := 0 }
+
+/-- the role is re-derived: super again only with the full status, the threshold capacity and the share -/
+def resetShare (s : State) (m : ResetMsg) (node : Node) : TxM Node :=
+  if m.status &&& ST_SUPER_REQ = ST_SUPER_REQ then
+    match s.getPledge m.creator with
+    | some p =>
+      if p.totalStorage ≥ s.params.vstorageThreshold then do
+        match (← checkNodeShare s node) with
+        | some n' => pure n'
+        | none => pure node
+      else pure node
+    | none => pure node
+  else pure node
+
+def resetNode (s : State) (m : ResetMsg) (node : Node) : TxM Node := do
+  let node ← resetPeer m (resetStatus m node)
+  let node ← resetValidator s m node
+  resetShare s m (resetTx s m node)
+
 def nodeReset (e : Env) (s : State) (m : ResetMsg) : TxM State := do
   let some node := s.getNode m.creator | throw "node not found"
-  let node := if m.status ≠ 0 ∧ node.status ≠ m.status then { node with status := m.status } else node
-  let node ← (if m.peer ≠ 0 ∧ node.peer ≠ m.peer then
-      if m.peerOk then pure { node with peer := m.peer } else throw "invalid peer"
-    else pure node : TxM Node)
-  let node ← (if m.validator ≠ 0 ∧ node.validator ≠ m.validator then
-      if !m.valKnown then throw "invalid validator"
-      else if (s.staking.validator m.validator).isNone then throw "validator not found"
-      else pure { node with validator := m.validator }
-    else pure node : TxM Node)
-  let node := if m.txAddrs ≠ [] then { node with txAddresses := m.txAddrs } else node
-  let node := { node with lastAlive := s.h, role := 0 }
-  let node ← (if m.status &&& ST_SUPER_REQ = ST_SUPER_REQ then
-      match s.getPledge m.creator with
-      | some p =>
-        if p.totalStorage ≥ s.params.vstorageThreshold then do
-          match (← checkNodeShare s node) with
-          | some n' => pure n'
-          | none => pure node
-        else pure node
-      | none => pure node
-    else pure node : TxM Node)
+  let node ← resetNode s m node
   pure (s.setNode e node)
 
 /-- capacity price arithmetic of AddVstorage: coins charged and bytes credited for `size`. -/
